@@ -29,6 +29,7 @@
 import PgVerif.Basic.Canon
 import PgVerif.Types.Text
 import PgVerif.Types.FStr
+import PgVerif.Spec.Numeric
 namespace PgVerif.Spec.Scalars
 open PgVerif PgVerif.Txt
 
@@ -203,12 +204,13 @@ inductive RangeTy where
   | int4 | int8 | date | ts | tstz | num
 deriving Repr, DecidableEq, Inhabited
 
-/-- a range bound; `num k` is the numeric value k (1 ≤ k ≤ 9999: one base-10000 digit) -/
+/-- a range bound; `num n form` is the numeric value `n` (Spec/Numeric.lean: NaN, ±Infinity or sign, weight, display
+scale and base-10000 digits) held in the given numeric header form -/
 inductive Bound where
   | int (i : Int)
   | date (d : DateV)
   | ts (t : TsV)
-  | num (k : Nat)
+  | num (n : Spec.Numeric) (form : Spec.HeaderForm)
 deriving Repr, DecidableEq, Inhabited
 
 /-- a point as two binary64 bit patterns -/
@@ -288,19 +290,28 @@ def packBitsN : Nat → List Bool → Bytes
 /-- bits packed MSB first, last byte zero-padded -/
 def packBits (bs : List Bool) : Bytes := packBitsN ((bs.length + 7) / 8) bs
 
-/-- a numeric holding the integer k (1..9999) as a short-header varlena: header byte (total 5),
-n_header 0x8000 (short, positive, dscale 0, weight 0), one base-10000 digit -/
-def encSmallNumeric (k : Nat) : Bytes := [0x0b] ++ le 2 0x8000 ++ le 2 k
+/-- a varlena bound as range_serialize (datum_write) stores it, without the padding in front: a value whose packed size
+(payload + 1) is at most 127 bytes gets the 1-byte header, a longer one the 4-byte header -/
+def encVarlenaBound (payload : Bytes) : Bytes :=
+  if payload.length + 1 ≤ 127 then Spec.varlena1 payload else Spec.varlena4 payload
 
 def encBound : Bound → Bytes
   | .int _ => []  -- width depends on the range type; see encBoundAs
   | .date d => le 4 (ofSigned 32 d.stored)
   | .ts t => le 8 (ofSigned 64 t.stored)
-  | .num k => encSmallNumeric k
+  | .num n form => encVarlenaBound (Spec.encNumeric form n)
 
 def encBoundAs (ty : RangeTy) : Bound → Bytes
   | .int i => if ty == .int8 then le 8 (ofSigned 64 i) else le 4 (ofSigned 32 i)
   | b => encBound b
+
+/-- the alignment padding range_serialize puts in front of a bound that follows `before` bytes of range payload (type oid and
+lower bound): a varlena with a 4-byte header is int-aligned relative to the start of the range's own 4-byte header
+(position = 4 + before), with zero bytes; a 1-byte-header varlena is not aligned; the fixed-width element types need no
+padding (see `enc`) -/
+def boundPad (before : Nat) : Bound → Bytes
+  | .num n form => if (Spec.encNumeric form n).length + 1 ≤ 127 then [] else zeros ((4 - before % 4) % 4)
+  | _ => []
 
 def rangeHasLower (flags : Nat) : Bool := !(flags.testBit 0 || flags.testBit 3)
 def rangeHasUpper (flags : Nat) : Bool := !(flags.testBit 0 || flags.testBit 4)
@@ -342,10 +353,14 @@ def enc : Val → Bytes
   | .polygon bbox pts => le 4 pts.length ++ bbox ++ pts.flatMap encPt
   /- rangetypid, [lower], [upper], flags last.  Bounds are aligned to the element's typalign relative
      to the varlena start; rangetypid ends at offset 8 there and every fixed element's size equals its
-     alignment (4 or 8), numerics carry a 1-byte header (no alignment): no padding ever appears. -/
+     alignment (4 or 8): no padding appears between them.  A numeric bound of up to 126 payload bytes carries a 1-byte
+     header (no alignment); a longer one a 4-byte header, int-aligned (`boundPad`; the lower bound starts at offset 8 of the
+     range and is always aligned). -/
   | .range ty flags lo hi =>
     le 4 ty.oid ++ (if rangeHasLower flags then encBoundAs ty lo else []) ++
-      (if rangeHasUpper flags then encBoundAs ty hi else []) ++ [UInt8.ofNat flags]
+      (if rangeHasUpper flags then
+        boundPad (4 + (if rangeHasLower flags then encBoundAs ty lo else []).length) hi ++ encBoundAs ty hi else []) ++
+      [UInt8.ofNat flags]
 
 /-! ### well-formedness: a valid stored value in the common range of its type -/
 
@@ -355,7 +370,7 @@ def Bound.wf (ty : RangeTy) : Bound → Bool
   | .int i => (ty == .int4 && inI 32 i) || (ty == .int8 && inI 64 i)
   | .date d => ty == .date && d.wf
   | .ts t => (ty == .ts || ty == .tstz) && t.wf
-  | .num k => ty == .num && 1 ≤ k && k ≤ 9999
+  | .num n form => ty == .num && decide n.WF && decide (form.admits n) && decide ((Spec.encNumeric form n).length + 4 < 2 ^ 30)
 
 def Val.wf : Val → Bool
   | .name s => s.length < 64 && !s.contains 0
@@ -463,7 +478,7 @@ def Bound.text : Bound → Bytes
   | .int i => decInt i
   | .date d => d.text
   | .ts t => t.text
-  | .num k => decNat k
+  | .num .. => []   -- a numeric bound is a `%g` hole, not bytes: see `Bound.pieces`
 
 /-- PostgreSQL's range_out, bounds unquoted -/
 def rangeText (flags : Nat) (lo hi : Bound) : Bytes :=
@@ -471,6 +486,19 @@ def rangeText (flags : Nat) (lo hi : Bound) : Bytes :=
   else
     [if flags.testBit 1 then 91 else 40] ++ (if rangeHasLower flags then lo.text else []) ++ [44] ++
       (if rangeHasUpper flags then hi.text else []) ++ [if flags.testBit 2 then 93 else 41]
+
+/-- a bound as pieces of a formatted string: a numeric bound is shown as the float64 nearest to its value (what the tool
+returns for every numeric, property C05) printed with `%g` — carried as its bit pattern (Types/FStr.lean) -/
+def Bound.pieces : Bound → List GoVal
+  | .num n _ => [hole n.view.bits]
+  | b => [.str b.text]
+
+/-- range_out for a numrange, as pieces -/
+def numRangePieces (flags : Nat) (lo hi : Bound) : List GoVal :=
+  if flags.testBit 0 then [lit "empty"]
+  else
+    [lit (if flags.testBit 1 then "[" else "(")] ++ (if rangeHasLower flags then lo.pieces else []) ++ [lit ","] ++
+      (if rangeHasUpper flags then hi.pieces else []) ++ [lit (if flags.testBit 2 then "]" else ")")]
 
 def view : Val → GoVal
   | .bool b => .bool b
@@ -507,6 +535,7 @@ def view : Val → GoVal
   | .path closed pts =>
     fstr ([lit (if closed then "(" else "[")] ++ joinPieces (lit ",") (pts.map ptPieces) ++ [lit (if closed then ")" else "]")])
   | .polygon _ pts => fstr ([lit "("] ++ joinPieces (lit ",") (pts.map ptPieces) ++ [lit ")"])
+  | .range .num flags lo hi => fstrS (numRangePieces flags lo hi)
   | .range _ flags lo hi => .str (rangeText flags lo hi)
 
 /-! ### PostgreSQL's names (pg_type.typname) of the supported type oids -/
@@ -545,16 +574,6 @@ def kfPgLsn : Val → Bool
 /-- A11: tid block number halves swapped — visible iff the halves differ -/
 def kfTid : Val → Bool
   | .tid block _ => block / 65536 != block % 65536
-  | _ => false
-
-/-- A16: numrange bounds are not decoded — visible iff a bound is present -/
-def kfNumRange : Val → Bool
-  | .range .num flags _ _ => rangeHasLower flags || rangeHasUpper flags
-  | _ => false
-
-/-- A17: path / polygon read in the wire layout — every stored value -/
-def kfPath : Val → Bool
-  | .path .. | .polygon .. => true
   | _ => false
 
 end PgVerif.Spec.Scalars
